@@ -583,7 +583,7 @@ theorem closure_C09 : Facts.closure_C09 = some "f5b067c176b9b315" := by decide
 theorem closure_C10 : Facts.closure_C10 = some "ad5f03ca351ab5b8" := by decide
 
 /-- [C11] everything the roots of C11 can reach is as pinned -/
-theorem closure_C11 : Facts.closure_C11 = some "c5a00cfc57678af7" := by decide
+theorem closure_C11 : Facts.closure_C11 = some "018d8d91e20a5641" := by decide
 
 /-- [C12] everything the roots of C12 can reach is as pinned -/
 theorem closure_C12 : Facts.closure_C12 = some "6f9d90a7ca64f11b" := by decide
